@@ -134,3 +134,8 @@ func (e *Env) Transfer(from int, nonce uint64, to common.Address, value int64) *
 	}
 	return tx
 }
+
+// Transfer0 is Transfer with the nonce taken from the block being generated.
+func (e *Env) Transfer0(g *core.BlockGen, from int, to common.Address, value int64) *types.Transaction {
+	return e.Transfer(from, g.TxNonce(e.Addrs[from]), to, value)
+}
